@@ -137,13 +137,17 @@ def h_partition(ntimes, win, only=None):
         fcst = S.array("fcst", shape, nan=False)
         for i in range(ntimes):
             fcst[i, 0, 0] = S.real("fcst?[%d]" % i, nan=True)
-        inp = MI("A.txt", common.int_array(S, ts), S.vector(lts),
-                 common.locations([5, 9], lats=[60.0, 61.5], lons=[10.0, 11.0], elevs=[100.0, 250.0]), obs=obs, fcst=fcst)
-        D = data.Data([inp])
         axes = [x for x in axis_objects() if only is None or x.name() in only]
         a = S.choose("axis", len(axes))
         axis = axes[a]
         name = axis.name()
+        coords = {"Location": [5, 9], "Lat": [60.0, 61.5], "Lon": [10.0, 11.0], "Elev": [100.0, 250.0]}
+        if name in ("Lat", "Lon", "Elev") and S.choose("stations-share-the-coordinate", 2):
+            # two stations at the same latitude / longitude / elevation are still two slices
+            coords = {"Location": [5, 9], "Lat": [60.0, 60.0], "Lon": [10.0, 10.0], "Elev": [100.0, 100.0]}
+        inp = MI("A.txt", common.int_array(S, ts), S.vector(lts),
+                 common.locations([5, 9], lats=coords["Lat"], lons=coords["Lon"], elevs=coords["Elev"]), obs=obs, fcst=fcst)
+        D = data.Data([inp])
         vals = D.get_axis_values(axis)
         n = D.get_axis_size(axis)
         S.prove("axis-size-matches-values", n == len(vals))
@@ -173,7 +177,7 @@ def h_partition(ntimes, win, only=None):
             S.prove("pooled-mae-is-count-weighted-mean=%s" % name, S.same(mae * len(pooled_valid), weighted),
                     twin=S.same(mae * len(pooled_valid), weighted + 1))
         if axis.is_location_like:
-            want = {"Location": [5, 9], "Lat": [60.0, 61.5], "Lon": [10.0, 11.0], "Elev": [100.0, 250.0]}[name]
+            want = coords[name]
             S.prove("one-slice-per-location-labelled=%s" % name, [float(v) for v in vals] == [float(v) for v in want])
     return fn
 
